@@ -132,6 +132,8 @@ type world struct {
 	// alteredAccepted counts accepted requests that contained a parameter with altered quoting
 	// next to a complete intact proof.
 	alteredAccepted int
+	// heldSecret counts acceptances of state the harness itself made under the accepting instance's own secret (no verdict)
+	heldSecret int
 	// reenc: non-canonical public-key encodings the harness sent, by the ID of their BYTES (keyenc_test.go)
 	reenc map[peer.ID]string
 	// notes are labels that the world's own procedures (honest sessions) add to the case
@@ -176,6 +178,7 @@ func sharedSecret() []byte {
 
 func newWorld(f failer, conf []srvConf, idents []*keys.Identity) *world {
 	w := &world{f: f, idents: idents, known: map[peer.ID]ic.PubKey{}, pool: map[string][]poolEntry{}}
+	clear(forgedWith)
 	for _, id := range idents {
 		w.know(id)
 	}
@@ -457,6 +460,12 @@ func (w *world) pubOf(p peer.ID, cands [][]byte) ic.PubKey {
 func (w *world) justify(s *server, host, hdr string, p peer.ID, now time.Time, needKey bool) (bool, string, string) {
 	cands := decodedCandidates(hdr)
 	var notes []string
+	for _, d := range cands {
+		if k, ok := forgedWith[string(d)]; ok && s.hmacKey != nil && bytes.Equal(k, s.hmacKey) {
+			w.heldSecret++
+			return true, "harness-made-state-under-this-instances-own-secret(no verdict)", ""
+		}
+	}
 	for _, d := range cands {
 		for _, o := range w.srv {
 			tr := o.tokens[string(d)]
